@@ -22,7 +22,7 @@ func FuzzFormat(f *testing.F) {
 	}
 	shapes := sweepShapes()
 	f.Fuzz(func(t *testing.T, format string, secret []byte, shape uint8) {
-		if len(format) > 200 || len(secret) > 4096 {
+		if len(format) > 200 || len(secret) > 4096 || hugeNumber(format) {
 			return
 		}
 		sh := shapes[int(shape)%len(shapes)]
@@ -41,4 +41,21 @@ func FuzzFormat(f *testing.F) {
 			t.Fatalf("%v", v.f)
 		}
 	})
+}
+
+// hugeNumber: a width or precision of five or more digits makes every rendering megabytes long; the target then
+// measures the fuzzer's patience, not the property.
+func hugeNumber(format string) bool {
+	run := 0
+	for _, r := range format {
+		if r >= '0' && r <= '9' {
+			run++
+			if run >= 5 {
+				return true
+			}
+		} else {
+			run = 0
+		}
+	}
+	return false
 }
